@@ -1122,7 +1122,8 @@ def work_sing_api(chunk_id, payload):
     # (c) singular calibrations on 1x1 systems with exactly representable
     # data: three unknowns, one equation per reflect standard
     dy = [-1.0, 1.0]
-    kinds = ("duplicate3", "duplicate2", "zero_column", "missing_row")
+    kinds = ("duplicate3", "duplicate2", "zero_column", "missing_row",
+             "zero_column_tall", "zero_m_column", "zero_m_column_tall")
     for k in range(max(4, count // 2)):
         ctype = physics.TYPES[(chunk_id + k) % 8]
         kind = kinds[(k // 8 + chunk_id) % len(kinds)]
@@ -1155,9 +1156,19 @@ def work_sing_api(chunk_id, payload):
             stds = [(g1, m1), (-g1, m2), (g1, m1)]
             order = rng.permutation(3)
             stds = [stds[i] for i in order]
-        elif kind == "zero_column":
+        elif kind in ("zero_column", "zero_column_tall"):
             # only matches: the terms multiplying S never get a coefficient
             stds = [(0.0, m1), (0.0, m2), (0.0, dyadic())]
+            if kind.endswith("tall"):      # over-determined: QR path
+                stds += [(0.0, dyadic()) for _ in range(int(rng.integers(1, 4)))]
+        elif kind in ("zero_m_column", "zero_m_column_tall"):
+            # every measurement exactly zero: the term multiplying M S never
+            # gets a coefficient (exactly one zero column)
+            gs = [1.0, -1.0, 0.0]
+            stds = [(gs[i], 0j) for i in rng.permutation(3)]
+            if kind.endswith("tall"):
+                stds += [(gs[int(rng.integers(0, 3))], 0j)
+                         for _ in range(int(rng.integers(1, 4)))]
         else:
             stds = [(g1, m1), (-g1, m2)]
         addl = []
